@@ -391,9 +391,16 @@ func (s *Sim) StepOnce(acts []Action) bool {
 	}
 	s.logf("%04d t=%dms [%d] %s", s.Step, s.Now().Milliseconds(), len(acts), a.Key)
 	s.Step++
+	s.Tick()
 	a.Run()
 	return true
 }
+
+// Tick moves the simulated clock by one microsecond. Done once per scheduler
+// step so that timers armed in different steps never expire at the same
+// simulated instant (same-instant wake-ups would run concurrently, in an order
+// the simulator does not own).
+func (s *Sim) Tick() { time.Sleep(time.Microsecond) }
 
 // Advance lets simulated time flow by d (timers fire in order meanwhile).
 func (s *Sim) Advance(d time.Duration) {
